@@ -178,6 +178,23 @@ PROPS = {
                                         "valid calls at len = GCM max (2^39-257) cannot be executed (no such buffer); only the rejecting side max+1 is executed",
                                         "values the documentation leaves open (rolling-hash w = 0, NULL data pointer with zero length, mask_gen shift >= 32) are not generated"],
     },
+    "C19": {
+        "title": "Every entry point preserves the callee-saved machine state of the SysV ABI",
+        "variant": "default",
+        "asm": ["common/tramp.asm"],
+        "quick": {"cases": 160000},
+        "thorough": {"cases": 6000000},
+        "rule": "rapidcheck cases of five kinds, every library call routed through the assembly trampoline (chosen sentinels in rbx/rbp/r12-r15, random caller-saved "
+                "registers, flags, zmm/k state; private stack with canary words above the call frame): hash submit/flush histories (valid and rejected submits) on "
+                "every ctx family + legacy + isal_; multi-hash/murmur init/update/finalize on every family; every AES entry point x family x exit-path class (C14's "
+                "operation table); every catalog isal_/legacy entry with valid arguments and with a NULL first pointer (error-return path); the three rolling-hash scan "
+                "loops with generated (idx, max) remainders. One case in five first re-arms every dispatch pointer (hook) so the call runs through the first-call "
+                "resolver. Oracle after every return: rsp as expected, rbx/rbp/r12-r15 equal their sentinels, DF clear, MXCSR control bits and x87 control word "
+                "unchanged, canaries above the frame intact. Non-trivial = every case; distinct = (sequence of symbols called, exit-path class, via resolver or not).",
+        "assumptions": COMMON_ASSUME + ["kernels with private register conventions (sha*_mb_x*, *_ni_x1/x2, *_opt_x1, md5_mb_x*) are not SysV entry points and are exercised "
+                                        "only through their managers", "block-level and mb_mgr-level functions are covered transitively through the ctx-level calls "
+                                        "(a clobber propagates unless the C layer happens to save that register)"],
+    },
 }
 
 # properties not (yet) claimed; kept current as checks are added
